@@ -28,7 +28,7 @@ func verifKeyring(mode int) openpgp.EntityList {
 // (other maintainer), 2 a second data.* member.  Success of load + verification implies: the role is present,
 // the signer is in the keyring, nothing was altered, there is no decoy - and the control fields and payload the
 // loader exposes are the signed ones.  attempts > 1 repeats the whole thing (native map iteration order varies).
-func VerifC16(signer, keyring int, ask string, tamper, decoy int, maint string, payload string, nb byte, attempts int) int {
+func VerifC16(signer, keyring int, ask string, tamper, decoy int, maint string, payload string, nb byte, attempts int, second int) int {
 	ctlText := func(m string) string {
 		return "Package: p\nVersion: 1\nArchitecture: all\nMaintainer: " + m + "\n"
 	}
@@ -61,6 +61,12 @@ func VerifC16(signer, keyring int, ask string, tamper, decoy int, maint string, 
 	if decoy == 2 {
 		mn = append(mn, "data.tar.gz")
 		md = append(md, verifCompress(".gz", verifTar([]string{"./f"}, []string{payload + "x"})))
+	}
+	if decoy == 3 {
+		// the signed control tarball is kept under a name that is no tarball name while a foreign one takes its place
+		md[1] = verifCompress(".gz", verifTar([]string{"./control"}, []string{ctlText(evilMaint)}))
+		mn = append(mn, "control.orig")
+		md = append(md, ctar)
 	}
 	archive := verifAr(mn, md)
 	inKeyring := (signer == 0 && (keyring == 2 || keyring == 4)) || (signer == 1 && (keyring == 3 || keyring == 4))
@@ -107,6 +113,17 @@ func VerifC16(signer, keyring int, ask string, tamper, decoy int, maint string, 
 		}
 		if !listed || listing != "./f\x00"+payload+"\x00" {
 			return 10
+		}
+		if second != 0 {
+			// asking again with a keyring that lacks the signing key must not succeed
+			in2 := (signer == 0 && (second == 2 || second == 4)) || (signer == 1 && (second == 3 || second == 4))
+			s2, err2 := d.CheckDebsig(verifKeyring(second), ask)
+			if err2 == nil && !in2 {
+				return 11
+			}
+			if err2 != nil && s2 != nil {
+				return 12
+			}
 		}
 		d.Close()
 	}
